@@ -337,6 +337,42 @@ func c17R2(c *Check, validate, merge, defaults, oidcURLs *ssa.Function) {
 		if known && eq {
 			ok, why = true, "returns under the fact scope element == \"openid\""
 		}
+		// found: fact slices.Contains(scopes, "openid") (the library form of the search loop)
+		if !ok {
+			for cond, pol := range fs {
+				inner, neg := unwrapBool(cond)
+				call, _, isC := asCall(inner)
+				if !isC || pol == neg {
+					continue
+				}
+				callee := call.Common().StaticCallee()
+				if callee == nil || callee.Pkg == nil && callee.Origin() == nil {
+					continue
+				}
+				o := callee
+				if callee.Origin() != nil {
+					o = callee.Origin()
+				}
+				if o.Pkg == nil || o.Pkg.Pkg.Path() != "slices" || o.Name() != "Contains" || len(call.Common().Args) != 2 {
+					continue
+				}
+				fromCfg := false
+				for d := range dataDeps(call.Common().Args[0]) {
+					if gc, _, isG := asCall(d); isG && isCallTo(gc, idOIDCConfig+".GetScopes") && gc.Common().Args[0] == ssa.Value(cfgParam) {
+						fromCfg = true
+					}
+					if fa, isF := d.(*ssa.FieldAddr); isF && fieldAddrID(fa) == idOIDCConfig+".Scopes" && fa.X == ssa.Value(cfgParam) {
+						fromCfg = true
+					}
+				}
+				if gc, _, isG := asCall(call.Common().Args[0]); isG && isCallTo(gc, idOIDCConfig+".GetScopes") && gc.Common().Args[0] == ssa.Value(cfgParam) {
+					fromCfg = true
+				}
+				if s, isK := constString(call.Common().Args[1]); isK && s == "openid" && fromCfg {
+					ok, why = true, "returns under the fact slices.Contains(scopes, \"openid\")"
+				}
+			}
+		}
 		// appended: a store to config.Scopes of append(..., "openid") precedes on all paths
 		if !ok {
 			isAppendStore := func(ins ssa.Instruction) bool {
